@@ -13,6 +13,7 @@ class _Timeout(BaseException):
     pass
 
 _TIMEOUTS = [0]
+_BUDGET_SCALE = [1.0]     # thorough: 5x (inputs up to 20 k characters)
 
 def _alarm(signum, frame):
     raise _Timeout()
@@ -20,7 +21,7 @@ def _alarm(signum, frame):
 def guarded_parse(text, lx=None, ps=None, tree=True):
     """real outcome with a wall-clock budget: CPython's re checks for signals while matching"""
     # after a few cases have exhausted the full budget the run is already a violation: later cases get a short budget
-    budget = PER_CASE_TIMEOUT if _TIMEOUTS[0] < 3 else 1.5
+    budget = PER_CASE_TIMEOUT * _BUDGET_SCALE[0] if _TIMEOUTS[0] < 3 else 1.5
     old = signal.signal(signal.SIGALRM, _alarm)
     signal.setitimer(signal.ITIMER_REAL, budget)
     try:
@@ -52,12 +53,15 @@ def long_inputs(ctx):
                 "a" * n, "a." * n + "b", "a" + ".b" * n, "1" * n, "1." + "5" * n, "duration'P" + "1" * n + "D'", "duration'P" + "1" * n,
                 " " * n, "a eq 1" + " " * n, "{" * min(n, 50), "a eq {" + "x" * min(n, 100) + "}", "'{" + "0}" * min(n, 200) + "'", "a" + " eq {1}" ,
                 "x/any(" * min(n, 400) + "y: y" + ")" * min(n, 400)]
-    for n in ([100, 1000] + ([4000] if ctx.thorough else [])):
+    # the real parser is quadratic in the number of path segments (0.6 s at 1000, 10 s at 4000 on this machine): sizes are kept where the
+    # per-case budget is >= 20x the unloaded time, so that a loaded machine cannot turn slowness into a reported non-termination
+    for n in ([100, 1000] + ([2500] if ctx.thorough else [])):
         out += ["/".join(["seg"] * n) + " eq 1", "/".join(["s"] * n) + "/any()", "/".join(["s"] * n) + "/"]
     return list(dict.fromkeys(out))
 
 def run(ctx):
     sys.setrecursionlimit(max(sys.getrecursionlimit(), 3000))
+    _BUDGET_SCALE[0] = 5.0 if ctx.thorough else 1.0
     common.build_and_audit(ctx, PROP_MODS, gen=lambda c: gen_tables.generate(["ExceptionTree", "ParserTables"]))
     rng = ctx.rng
     atoms = gens.ATOMS + ["{", "}", "{0}", "%s", "\\", "\"", "\x00", "é", "ı", "’", "＇", "\n", "\t"]
